@@ -448,7 +448,10 @@ def execute(case):
         p, ld = locs[i % len(locs)]
         wpaths.append(p)
         v, verdict = value_for(ld)
-        if name == 'rebind_path':
+        if name == 'rebind_path' and m % 5 == 4 and isinstance(p[-1], int):
+          # a list element deleted through a path from the root (no verdict of its own: the state laws decide)
+          call = lambda: root.rebind({pg.KeyPath(p): pg.MISSING_VALUE})
+        elif name == 'rebind_path':
           single = verdict
           plain_replace = True
           call = lambda: root.rebind({pg.KeyPath(p): v})
